@@ -75,7 +75,7 @@ func init() {
 			h("cont.H_Hist", noAs2(hist(3, 2, 4, 1, 1)), noAs2(hist(3, 3, 4, 1, 1)), histCov, 0, histDesc),
 		}},
 		propertySpec{ID: "C03", Harnesses: []harnessSpec{
-			h("cont.H_Hist", noAs2(hist(1, 3, 3, 1, 1)), noAs2(hist(1, 3, 4, 2, 1)), histCov, 30, histDesc),
+			h("cont.H_Hist", noAs2(hist(1, 3, 3, 1, 1)), noAs2(hist(1, 3, 3, 1, 2)), histCov, 30, histDesc),
 			h("cont.H_Hist", noAs2(hist(0, 2, 3, 1, 1)), noAs2(hist(0, 2, 4, 2, 1)), histCov, 0, histDesc),
 		}},
 		propertySpec{ID: "C04", Harnesses: []harnessSpec{
@@ -160,19 +160,23 @@ func init() {
 	web := func(mod, name string, cov []string, desc string) harnessSpec {
 		return harnessSpec{Name: name, Module: mod, Quick: map[string]int{"order_schemes": 1}, Thorough: map[string]int{"order_schemes": 2}, Covers: cov, Xval: 15, Desc: desc}
 	}
-	const webConcDesc = "two requests in flight at once through one middleware instance (two harness goroutines, the handler yields between two uses of its scope; every interleaving explored): no request loses or shares its scope or scoped instance, both scopes closed exactly once"
+	const webConcDesc = "(happens-before race detector on) two requests in flight at once through one middleware instance (two harness goroutines, the handler yields between two uses of its scope; every interleaving explored): no request loses or shares its scope or scoped instance, both scopes closed exactly once"
 	properties = append(properties,
 		propertySpec{ID: "C16", Harnesses: []harnessSpec{
 			web("harness_http", "webh.H_Http", []string{"request_done"}, webDesc("net/http")),
 			web("harness_gin", "webh.H_Gin", []string{"request_done"}, webDesc("gin (inside the real gin engine)")),
 			web("harness_gin", "webh.H_GinConc", []string{"both_served"}, webConcDesc),
+			web("harness_http", "webh.H_HttpConc", []string{"both_served"}, webConcDesc),
 			web("harness_chi", "webh.H_Chi", []string{"request_done"}, webDesc("chi (net/http handler chain)")),
+			web("harness_chi", "webh.H_ChiConc", []string{"both_served"}, webConcDesc),
+			web("harness_echo", "webh.H_EchoConc", []string{"both_served"}, webConcDesc),
+			web("harness_fiber", "webh.H_FiberConc", []string{"both_served"}, webConcDesc),
 			web("harness_echo", "webh.H_Echo", []string{"request_done"}, webDesc("echo (inside a real echo instance; handler may also return an error)")),
 			web("harness_fiber", "webh.H_Fiber", []string{"request_done"}, webDesc("fiber (inside a real fiber app on a fasthttp RequestCtx, served like the fasthttp server: handler, then release of user values; optionally fiber's own recover middleware in front; scope in Locals and in the user context)")),
 		}},
 	)
 	hc := h("cont.H_Conc", conc(1), conc(1), []string{"both_done"}, 10, concDesc)
-	hrace := h("cont.H_Conc", map[string]int{"ops": 1, "order_schemes": 1, "race": 1}, map[string]int{"ops": 1, "order_schemes": 1, "race": 1}, []string{"both_done"}, 0, concDesc+"; with the VM's happens-before (vector clock) race detector on every memory cell and map the container's own code touches; a race is confirmed by Go's race detector on free-running native goroutines")
+	hrace := h("cont.H_Conc", map[string]int{"ops": 1, "order_schemes": 1, "race": 1}, map[string]int{"ops": 2, "order_schemes": 1, "race": 1}, []string{"both_done"}, 0, concDesc+"; with the VM's happens-before (vector clock) race detector on every memory cell and map the container's own code touches; a race is confirmed by Go's race detector on free-running native goroutines")
 	hcb := h("cont.H_CloseInCallback", map[string]int{"order_schemes": 1}, map[string]int{"order_schemes": 2}, []string{"callback_closed"}, 10, cbDesc)
 	properties = append(properties,
 		propertySpec{ID: "C09", Harnesses: []harnessSpec{hc, hcb, hrace}},
